@@ -48,7 +48,7 @@ def crafted_items(rng):
 
 
 def run(ctx):
-    ctx.build_repo(need_hook=False)
+    ctx.build_repo(need_hook=True)
     ok, failing, log = ctx.coq_props("C17")
     ctx.coverage["trusted_base"] = TRUSTED
     ctx.coverage["rule"] = ("stream steps of random packages and of the hand-written Edge package (consecutive items differing in map "
